@@ -367,8 +367,8 @@ def run(cx):
         d2 = [norm(v) for _, v in assignments(parse, "next_token") if v is not None]
         ok = d == ["top.get_cur_symbol()"] and d2 == ["tokens[top.cur_token_pos]"]
         cx.ob("R02e", gets[0], ok, "the symbol is the next unmatched one and the token the one under the cursor" if ok else "lookup operands altered", stmt=norm(gets[0]) + " [operands]")
-        g = {(norm(e), pol) for e, pol in facts(gets[0])}
-        ok = ("cur_symbol in self.terminals", False) in g
+        from sa.guards import canon_facts
+        ok = ("in", "cur_symbol", "self.terminals", False) in canon_facts(gets[0])
         cx.ob("R02e", gets[0], ok, "the table is consulted for non-terminals only" if ok else "table consulted for terminals", stmt=norm(gets[0]) + " [guard]")
     # constructor wiring: table built from the factorized grammar with the same nullables/terminals/start
     ctor = cx.func(REL, "LLParser.__init__", "R02e")
